@@ -570,6 +570,7 @@ class RoiSubsetStateNd(SubsetState):
 
     def move_to(self, *args):
         self._roi.move_to(*args)
+        clear_mask_caches()
 
     def copy(self):
         return RoiSubsetStateNd(list(self._atts), self.roi, self.pretransform)
@@ -844,6 +845,7 @@ class RangeSubsetState(SubsetState):
         dx = new_cen - self.center()
         self.lo = self.lo + dx
         self.hi = self.hi + dx
+        clear_mask_caches()
 
     def copy(self):
         return RangeSubsetState(self.lo, self.hi, self.att)
@@ -1160,6 +1162,7 @@ class CompositeSubsetState(SubsetState):
                 mt_args = args
             self.state2.move_to(*mt_args)
         self.state1.move_to(*args)
+        clear_mask_caches()
 
     @property
     def attributes(self):
